@@ -239,7 +239,12 @@ class Gen(object):
                 if arg:
                     newvars.append('p')
             elif name == 'match':
-                dirs.append(('match', rng.choice(['em', 'span', 'li', 'b/i', '*[@class]', 'p'] if not m else
+                # outside the step model also paths whose test keeps state between events (positional
+                # predicates, multi-step paths of every strategy): a test object shared between renders
+                # shows only with these (seeded change C10-1)
+                dirs.append(('match', rng.choice(['em', 'span', 'li', 'b/i', '*[@class]', 'p', 'p[2]', 'li[1]', '*[2]',
+                                                  'ul/li', 'p/b', 'ul//li', 'p//i', '*/em', 'span[@class]/b', 'p/*[1]',
+                                                  'li[2]', 'b[1]', 'ul/li[1]', '*/b/i'] if not m else
                                                  ['em', 'span', 'li', 'p', 'b'])))
         if any(d[0] == 'replace' for d in dirs):
             dirs = [d for d in dirs if d[0] not in ('attrs', 'strip', 'content')]
